@@ -474,10 +474,22 @@ func (c *Check) issueOrder() {
 						}
 					}
 				}
-				if ev.Kind == EvAssign && ev.Val != nil && ev.Val.Op == "append" && len(ev.Val.A) == 2 && stored[ev.Val.A[1].String()] {
+				if (ev.Kind == EvAssign || ev.Kind == EvWrite) && ev.Val != nil && ev.Val.Op == "append" && len(ev.Val.A) == 2 && stored[ev.Val.A[1].String()] {
 					got["append request"] = true
 					if !ev.Val.A[1].ContainsOp(c.typesName("GenerateRequestID")) {
 						listTerm = ev.Val.String() // the list of request records (not the list of ids)
+						// the list starts empty for this batch: an id's index is a position among this batch's requests
+						base := stripConv(ev.Val.A[0])
+						for base.Op == "append" && len(base.A) >= 1 {
+							base = stripConv(base.A[0])
+						}
+						fresh := (base.Op == "lit" && len(base.A) == 1) || base.IsAt("zero") || base.IsAt("#nil")
+						if base.Op == "make" && len(base.A) >= 2 && base.A[1].IsAt("#0") {
+							fresh = true
+						}
+						if !fresh {
+							missing["the event list does not start empty for this batch (it continues "+shortTerm(base)+")"] = true
+						}
 					}
 				}
 			}
